@@ -173,6 +173,8 @@ def gen_c10(tier):
         # error paths of the iterator folds drop a merged Result<f64, Error{Value}>: deallocation is not modelled there
         cuts = ""
         _, src = c10_harness(op, nm, shapes, t, to, conv, cuts)
+        if t == T and (len(shapes) == 3 or any(x.startswith("c:") for x in shapes)):
+            src = src.replace(" kind=main", " kind=main optional=1", 1)
         out += src
     return {"c10_op.rs": out}
 
@@ -187,6 +189,12 @@ OPS = {
     "DATA_OPERATOR_MAP": ["var", "missing", "missing_some"],
     "LAZY_OPERATOR_MAP": ["if", "?:", "or", "and", "map", "filter", "reduce", "all", "some", "none"],
 }
+# documented (min, max) operand counts, max 99 = unbounded (statement of C03)
+ARITY = {"==": (2, 2), "!=": (2, 2), "===": (2, 2), "!==": (2, 2), "/": (2, 2), "%": (2, 2), "in": (2, 2), "map": (2, 2), "filter": (2, 2),
+         "all": (2, 2), "some": (2, 2), "none": (2, 2), "missing_some": (2, 2), "<": (2, 3), "<=": (2, 3), ">": (2, 3), ">=": (2, 3),
+         "substr": (2, 3), "reduce": (3, 3), "!": (1, 1), "!!": (1, 1), "log": (1, 1), "-": (1, 2), "var": (0, 2), "*": (1, 99),
+         "max": (1, 99), "min": (1, 99), "and": (1, 99), "or": (1, 99), "+": (0, 99), "cat": (0, 99), "merge": (0, 99),
+         "missing": (0, 99), "if": (0, 99), "?:": (0, 99)}
 OPNAME = {"==": "eq", "!=": "ne", "===": "seq", "!==": "sne", "!": "not", "!!": "bool", "<": "lt", "<=": "lte",
           ">": "gt", ">=": "gte", "+": "add", "-": "sub", "*": "mul", "/": "div", "%": "mod", "?:": "ternary"}
 
@@ -222,9 +230,9 @@ pub fn c03_desc_%(i)d() {
     quick_una = {("!", 2), ("!", 0), ("==", 1), ("var", 3), ("if", 2)}
     tymap = {"OPERATOR_MAP": "Operator", "DATA_OPERATOR_MAP": "DataOperator", "LAZY_OPERATOR_MAP": "LazyOperator"}
     for (t, o) in allops:
-        for n in range(0, 7):
-            if n >= 5 and (o, n) not in quick_arr and o not in ("+", "cat", "merge", "missing", "if", "?:", "*", "and", "or", "min"):
-                continue
+        lo, hi = ARITY[o]
+        wanted = {max(lo - 1, 0), lo, min(hi, 6), min(hi + 1, 6)} | {n for (oo, n) in quick_arr if oo == o}
+        for n in sorted(wanted):
             tr = "quick" if (o, n) in quick_arr else "thorough"
             out += '''
 //@ harness: c03_array_%(id)s_%(n)d tier=%(tier)s timeout=900 kind=main mem=8
@@ -240,7 +248,7 @@ pub fn c03_array_%(id)s_%(n)d() {
 ''' % dict(id=opid(o), n=n, tier=tr, ty=tymap[t], t=t, o=o, unw=max(len(o) + 2, n + 2, 4))
         for sh in range(4):
             tr = "quick" if (o, sh) in quick_una else "thorough"
-            if tr == "thorough" and sh in (0, 3) and o not in ("var", "!", "cat", "merge", "!!", "max", "if"):
+            if tr == "thorough" and not (sh == 2 or (sh == 0 and o in ("var", "!", "cat", "merge", "!!", "max", "if")) or (sh == 3 and o == "var")):
                 continue
             out += '''
 //@ harness: c03_unary_%(id)s_%(sh)d tier=%(tier)s timeout=900 kind=main mem=8
@@ -548,7 +556,7 @@ def gen_c16(tier):
                 continue
             q = n <= 1
             out += '''
-//@ harness: c16_substr_n%(n)d_%(k)d tier=%(tier)s timeout=%(to)d kind=main mem=%(mem)d
+//@ harness: c16_substr_n%(n)d_%(k)d tier=%(tier)s timeout=%(to)d kind=main mem=%(mem)d%(opt)s
 //@ cuts: strcount
 //@ encodes: op::string::substr
 //@ bound: string of %(n)d characters each of symbolic UTF-8 width (a / e-acute / euro / emoji), start = every i64%(l)s: result is the run of characters [start,end) of the character-based reference (negative start from the end, negative length stops before the end, clamping), decided through its byte length under symbolic widths
@@ -559,12 +567,12 @@ def gen_c16(tier):
 pub fn c16_substr_n%(n)d_%(k)d() {
     substr_case(%(n)d, %(wl)s);
 }
-''' % dict(n=n, k=3 if with_len else 2, tier="quick" if q else "thorough", mem=(8 if n == 0 else 12) if n < 2 else 28, to=900 if n < 2 else 3000,
+''' % dict(n=n, k=3 if with_len else 2, tier="quick" if q else "thorough", mem=(8 if n == 0 else 12) if n < 2 else 28, to=900 if n < 2 else 2400, opt="" if n < 2 else " optional=1",
            l=", length = every i64" if with_len else "", unw=max(4 * n + 2, 3), wl="true" if with_len else "false")
     quick_pairs = {(0, 1), (1, 2), (6, 2), (2, 0), (0, 6)}
     for a in range(9):
         out += '''
-//@ harness: c16_cat1_%(sa)s tier=%(tier)s timeout=%(to)d kind=main mem=%(mem)d
+//@ harness: c16_cat1_%(sa)s tier=%(tier)s timeout=%(to)d kind=main mem=%(mem)d%(opt)s
 //@ encodes: op::string::cat, js_op::to_string
 //@ bound: cat of one operand of shape %(sa)s (strings of 1 symbolic char, ints -99..999) and of no operands
 #[cfg_attr(kani, kani::proof)]
@@ -575,10 +583,13 @@ pub fn c16_cat1_%(sa)s() {
     cat1(%(a)d);
 }
 ''' % dict(sa=CAT_SHAPES[a], a=a, tier="quick" if a in (0, 1, 2, 6) else "thorough",
-           to=600 if a in (0, 1, 2, 6) else 1800, mem=8 if a in (0, 1, 2, 6) else 20)
+           to=600 if a in (0, 1, 2, 6) else 1800, mem=8 if a in (0, 1, 2, 6) else 20, opt="" if a in (0, 1, 2, 6) else " optional=1")
         for b in range(9):
+            cheap = a in (0, 1, 2, 6) and b in (0, 1, 2, 6)
+            if not cheap and (a, b) not in ((3, 0), (0, 3), (5, 6), (7, 0), (4, 8), (8, 1)):
+                continue
             out += '''
-//@ harness: c16_cat2_%(sa)s_%(sb)s tier=%(tier)s timeout=%(to)d kind=main mem=%(mem)d
+//@ harness: c16_cat2_%(sa)s_%(sb)s tier=%(tier)s timeout=%(to)d kind=main mem=%(mem)d%(opt)s
 //@ encodes: op::string::cat, js_op::to_string
 //@ bound: cat of two operands of shapes (%(sa)s, %(sb)s) (strings of 1 symbolic char, ints -99..999): concatenation of the JavaScript string forms
 #[cfg_attr(kani, kani::proof)]
@@ -589,7 +600,8 @@ pub fn c16_cat2_%(sa)s_%(sb)s() {
     cat2(%(a)d, %(b)d);
 }
 ''' % dict(sa=CAT_SHAPES[a], sb=CAT_SHAPES[b], a=a, b=b, tier="quick" if (a, b) in quick_pairs else "thorough",
-           to=600 if (a, b) in quick_pairs else 1800, mem=8 if (a, b) in quick_pairs else 20)
+           to=600 if (a, b) in quick_pairs else 1800, mem=8 if (a, b) in quick_pairs else 20,
+           opt="" if ((a, b) in quick_pairs or (a in (0, 1, 2, 6) and b in (0, 1, 2, 6))) else " optional=1")
     return {"c16_op.rs": out}
 
 
@@ -653,7 +665,7 @@ pub fn c02_near_%(id)s_%(kn)s() {
             '{" var": "a"} (leading whitespace)', '{"var ": "a"} (trailing whitespace)', '{"i": []} (prefix of "if"/"in")']
     for k in range(7):
         out += '''
-//@ harness: c02_literal_object_%(k)d tier=%(tier)s timeout=3000 kind=main mem=24
+//@ harness: c02_literal_object_%(k)d tier=%(tier)s timeout=1800 kind=main mem=24%(opt)s
 //@ encodes: Parsed::from_value, Operation/LazyOperation/DataOperation::from_value, op::op_from_map x3 tables, Raw::evaluate
 //@ bound: object %(doc)s: parsed as Raw and evaluates to the very same value (pointer identity), whatever the data
 #[cfg_attr(kani, kani::proof)]
@@ -663,7 +675,7 @@ pub fn c02_near_%(id)s_%(kn)s() {
 pub fn c02_literal_object_%(k)d() {
     object_case(%(k)d);
 }
-''' % dict(k=k, doc=docs[k], tier="quick" if k == 0 else "thorough")
+''' % dict(k=k, doc=docs[k], tier="quick" if k == 0 else "thorough", opt="" if k == 0 else " optional=1")
     nonop = [("OPERATOR_MAP", "Operator", "Cat", "q"), ("LAZY_OPERATOR_MAP", "LazyOperator", " if", "q"), ("DATA_OPERATOR_MAP", "DataOperator", "var ", "q"),
              ("OPERATOR_MAP", "Operator", "a", "t"), ("OPERATOR_MAP", "Operator", "=", "t"), ("LAZY_OPERATOR_MAP", "LazyOperator", "IF", "t"),
              ("LAZY_OPERATOR_MAP", "LazyOperator", "reduc", "t"), ("DATA_OPERATOR_MAP", "DataOperator", "vars", "t"), ("DATA_OPERATOR_MAP", "DataOperator", "Missing", "t"),
@@ -708,7 +720,7 @@ pub fn c15_in_num_%(ra)s_%(rb)s() {
     docs = ["no operands", "[x]: one non-array operand", "[[y, z]]", "[x, [y, z]]", "[[y, z], [], null]", "[[y, z], x, [y, z]]"]
     for k in range(6):
         out += '''
-//@ harness: c15_merge_%(k)d tier=%(tier)s timeout=%(to)d kind=main mem=%(mem)d
+//@ harness: c15_merge_%(k)d tier=%(tier)s timeout=%(to)d kind=main mem=%(mem)d%(opt)s
 //@ encodes: op::array::merge
 //@ bound: operand list %(doc)s (payloads symbolic): arrays spliced one level, other values kept as one element, order preserved, length = sum
 #[cfg_attr(kani, kani::proof)]
@@ -719,7 +731,7 @@ pub fn c15_in_num_%(ra)s_%(rb)s() {
 pub fn c15_merge_%(k)d() {
     merge_case(%(k)d);
 }
-''' % dict(k=k, doc=docs[k], tier="quick" if k in (0, 1) else "thorough", to=600 if k < 2 else 2400, mem=8 if k < 2 else 24)
+''' % dict(k=k, doc=docs[k], tier="quick" if k in (0, 1) else "thorough", to=600 if k < 2 else 1800, mem=8 if k < 2 else 24, opt="" if k < 2 else " optional=1")
     return {"c15_op.rs": out}
 
 
